@@ -279,6 +279,12 @@ def execute(doc):
               'calib': last['calib'], 'text': text}
           if core.sha(saved) != last['bytes']:
             rec.violate('C12/bytes-differ', step, 'saved .tflite differs from quantize() bytes')
+          # export_model() writes the same model without the recipe
+          epath = os.path.join(sdir, name + '_exported.tflite')
+          last['result'].export_model(epath)
+          with open(epath, 'rb') as f:
+            if core.sha(f.read()) != last['bytes']:
+              rec.violate('C12/bytes-differ', step, 'export_model() wrote bytes that differ from quantize() bytes')
           rec.event(step, 'checkpoint', 'saved')
           rec.probe('checkpoint_save')
         except FileExistsError:
